@@ -211,19 +211,23 @@ func (d *driver) runReadChecks(r *hx.Rand, n int) {
 	}
 	for i := 0; i < n; i++ {
 		ri := r.Fork(fmt.Sprint(i))
-		gd := genDef(ri, 6)
-		// through JSON so that the tree holds plain JSON values only
-		b0, _ := json.Marshal(gd.Flow)
-		v, _ := decodeGeneric(b0)
-		f, _ := v.(map[string]any)
+		// pick the change first, then generate definitions until one has the member to change
+		var f map[string]any
 		how := "none"
-		if !ri.Chance(1, 12) {
-			for tries := 0; tries < 8; tries++ {
-				dm := hx.Pick(ri, damages)
-				if dm.apply(ri, f) {
-					how = dm.name
-					break
-				}
+		dm := hx.Pick(ri, damages)
+		unchanged := ri.Chance(1, 12)
+		for tries := 0; tries < 12; tries++ {
+			gd := genDef(ri.Fork(fmt.Sprint("def", tries)), 6)
+			// through JSON so that the tree holds plain JSON values only
+			b0, _ := json.Marshal(gd.Flow)
+			v, _ := decodeGeneric(b0)
+			f, _ = v.(map[string]any)
+			if unchanged {
+				break
+			}
+			if dm.apply(ri, f) {
+				how = dm.name
+				break
 			}
 		}
 		x, err := json.Marshal(f)
